@@ -528,7 +528,7 @@ fn build_ops(tier: Tier) -> Vec<Op> {
         prims.push(Prim::Read16(n));
         prims.push(Prim::Peek16(n));
     }
-    for n in [1u8, 2, 7, 8, 9] {
+    for n in [0u8, 1, 2, 7, 8, 9] {
         prims.push(Prim::Signed8(n));
     }
     for n in [1u8, 2, 7, 8, 9, 15, 16, 17] {
@@ -537,7 +537,7 @@ fn build_ops(tier: Tier) -> Vec<Op> {
     for n in [1u8, 11, 32, 33] {
         prims.push(Prim::Signed32(n));
     }
-    for n in [1u8, 7, 16] {
+    for n in [0u8, 1, 7, 16] {
         prims.push(Prim::PeekSigned16(n));
     }
     prims.extend([Prim::ReadU8, Prim::Sc(false), Prim::Sc(true), Prim::Commit]);
@@ -704,7 +704,7 @@ pub fn run(tier: Tier) -> Report {
     rep.sample(json!({"source": "ff 80 00 40 12", "history": ["skip_bits(7)", "recognize_start_code(false) -> Some(2)"]}));
     rep.sample(json!({"source": "a5 ff (second byte arrives later)", "history": ["peek_bits::<u32>(9) -> end of data", "Grow", "read_bits::<u32>(9)"]}));
     rep.assume("commit() inside a transaction that subsequently fails is outside the documented contract and is not generated");
-    rep.assume("a signed read of zero bits has no meaning and is not generated; read_vlc/read_umv are only issued inside transaction wrappers because their position after an error is documented as undefined");
+    rep.assume("read_vlc/read_umv are only issued inside transaction wrappers because their position after an error is documented as undefined");
     rep
 }
 
@@ -745,9 +745,6 @@ fn one_step_sweep(rep: &Report, tier: Tier) {
                         Prim::Signed8(width), Prim::Signed16(width), Prim::Signed32(width), Prim::PeekSigned16(width),
                     ] {
                         let signed = matches!(p, Prim::Signed8(_) | Prim::Signed16(_) | Prim::Signed32(_) | Prim::PeekSigned16(_));
-                        if signed && width == 0 {
-                            continue;
-                        }
                         let mut rd = H263Reader::from_source(&data[..]);
                         let mut m = Model { bits: &bits, avail: bits.len(), pos: 0 };
                         let _ = rd.skip_bits(off as u32);
@@ -1001,11 +998,7 @@ fn type_width_sweep(rep: &Report) {
                                 }
                             }
                         }
-                        // signed (a signed read of zero bits has no two's-complement meaning: excluded, as
-                        // in the operation alphabet)
-                        if n == 0 {
-                            continue;
-                        }
+                        // signed (a zero-width signed field is zero)
                         let mut rd = fresh();
                         let pk = rd.peek_signed_bits::<$t>(n as u32);
                         let r = rd.read_signed_bits::<$t>(n as u32);
